@@ -1363,15 +1363,18 @@ Proof.
     { apply wfb_app2 in Hwf. destruct Hwf as [_ Hwf]. apply wfb_app2 in Hwf. destruct Hwf as [_ Hwf].
       apply wfb_app2 in Hwf. destruct Hwf as [_ Hwf]. apply wfb_app2 in Hwf.
       apply wfb_app2 in Hwf'. destruct Hwf' as [_ Hwf']. apply wfb_app2 in Hwf'. destruct Hwf' as [_ Hwf'].
-      apply wfb_app2 in Hwf'. destruct Hwf' as [_ Hwf']. apply wfb_app2 in Hwf'. tauto. }
+      apply wfb_app2 in Hwf'. destruct Hwf' as [_ Hwf']. apply wfb_app2 in Hwf'.
+      split; [exact (proj1 Hwf) | exact (proj1 Hwf')]. }
     assert (Hlen : (length p <= length (b1 ++ tg ++ lp ++ p ++ b2))%nat /\ (length p' <= length (b1 ++ tg ++ lp' ++ p' ++ b2))%nat)
-      by (rewrite !app_length; lia).
+      by (clear; rewrite !app_length; lia).
     assert (Hsubw : Wd (depth_ty sub) (codec_of sub) p p').
-    { apply IH; try tauto.
+    { apply IH.
       - apply (sub_elem_ok ft sub Hfok Hsub).
       - apply (sub_numbers tag ft k' sub Hfok Hsub). rewrite <- Ef. exact Hnc.
-      - unfold len in *. lia.
-      - unfold len in *. lia. }
+      - exact (proj1 Hwp).
+      - exact (proj2 Hwp).
+      - destruct Hlen as [Hlen _]. clear - Hlen Hlim. unfold len in *. lia.
+      - destruct Hlen as [_ Hlen]. clear - Hlen Hlim'. unfold len in *. lia. }
     assert (Hfw : Wd (depth_ty ft) (sf_codec f) p p').
     { rewrite Ef. apply (field_Wd tag ft k' sub p p' Hsub); [|exact Hsubw].
       intros Hm. split; [apply Hmap; exact Hm | apply (widened_nonempty _ _ _ Hw)]. }
